@@ -119,6 +119,32 @@ Theorem C15_sdp_decode_short_raises :
   forall bs, (length bs < 10)%nat -> sdp_of_bytes bs = OtherError.
 Proof. exact sdp_of_bytes_short. Qed.
 
+(* ---- 4b. Why the SAME argument count is required: a packet encoded with k < 3 arguments (a prefix) whose
+   payload has at least 4(3-k) bytes, decoded with n_args = 3, comes back with three arguments -- the extra ones
+   read from the payload, which is shortened by those words; the arguments that were present are unchanged. *)
+Theorem C15_scp_decode_with_larger_count_takes_payload :
+  forall q, scp_in_width q -> args_prefix q -> arg3 q = None ->
+    (4 * (3 - Z.to_nat (n_present q)) <= length (data (sdp_part q)))%nat ->
+    exists q', scp_of_bytes (scp_wire q) 3 = Ok q'
+               /\ arg1 q' <> None /\ arg2 q' <> None /\ arg3 q' <> None
+               /\ data (sdp_part q') = skipn (4 * (3 - Z.to_nat (n_present q))) (data (sdp_part q))
+               /\ (arg1 q <> None -> arg1 q' = arg1 q) /\ (arg2 q <> None -> arg2 q' = arg2 q).
+Proof. exact scp_decode_more_args. Qed.
+
+(* n_args = 0 with a 12-byte payload: nothing is taken; a negative n_args: nothing is taken *)
+Example C15_decode_n_args_zero :
+  exists q, scp_of_bytes [0; 0; 135; 1; 2; 3; 4; 5; 6; 7; 8; 9; 10; 11;
+                          21; 22; 23; 24; 25; 26; 27; 28; 29; 30; 31; 32] 0 = Ok q
+            /\ arg1 q = None /\ arg2 q = None /\ arg3 q = None
+            /\ data (sdp_part q) = [21; 22; 23; 24; 25; 26; 27; 28; 29; 30; 31; 32].
+Proof. exact ex_decode_n_args_0. Qed.
+
+Example C15_decode_negative_n_args :
+  exists q, scp_of_bytes [0; 0; 7; 1; 2; 3; 4; 5; 6; 7; 8; 9; 10; 11; 21; 22; 23; 24; 25] (-2) = Ok q
+            /\ arg1 q = None /\ arg2 q = None /\ arg3 q = None /\ data (sdp_part q) = [21; 22; 23; 24; 25]
+            /\ args_taken (-2) 19 = 0%nat.
+Proof. exact ex_decode_negative_n_args. Qed.
+
 (* ---- 5. The other direction: a datagram (bytes, zero padding, flags 0x87 or 0x07) decoded with ANY n_args
    re-encodes to exactly the datagram. *)
 Theorem C15_scp_reencode :
@@ -159,6 +185,15 @@ Proof. exact obj_bytes_scp_ok. Qed.
 Theorem C15_object_sdp_layout :
   forall o p, o_scp o = false -> obj_sdp o = Some p -> sdp_in_width p -> obj_bytes o = Ok (sdp_wire p).
 Proof. exact obj_bytes_sdp_ok. Qed.
+
+(* NOTE on sections 7 and 8 (outside the property text; added for the reuse / buffer streams of the harness):
+   history independence and buffer-reuse stability are STRUCTURAL in the model -- an object is an immutable record
+   of current values, decoding builds a value from a copied list -- so these theorems state how the model is
+   built rather than discover anything.  That the implementation behaves like this model (no cached header, no
+   aliasing of the caller's buffer, a failed encode leaving the object intact) is established only by the
+   correspondence run of whole histories (harness, obligation correspondence:histories) and the per-step oracle.
+   Not covered by any theorem: concurrent encodes (thread search in the harness only); a memoryview passed by
+   the caller (aliases by the caller's choice); which exception class (TypeError / struct.error) is raised. *)
 
 (* ---- 7. Histories on ONE object (encode / assign a field / change the bytearray payload in place / encode):
    every encode of a history, whatever came before it -- earlier encodes, failed encodes, assignments -- is the
